@@ -184,6 +184,20 @@ func poolConfigs(prop string, thorough bool) (cfgs []poolCfg, depth int) {
 		cn := poolCfg{Name: prop + " nil-config", NilCfg: true, A: base}
 		cn.A.Resolve = []string{"a1", "empty"}
 		add(cn)
+		// non-initial roots: refresh in flight with a bound key; home down with a stand-in; BIND parked
+		r1 := poolCfg{Name: prop + " root=bound+refreshing", Min: 2, Max: 2, WM: 100, Fallback: true, RefCalls: 1, RefMs: 1, A: base,
+			Setup: append(readyPool(2), "pick(bind,,L,g)", "done(0,ok:k1)", "pick(plain,,L,g,d1)", "adv(2)", "done(0,cde)", "state(2,CONNECTING)")}
+		r1.A.Ctx = []string{"g,d1", "n", "el"}
+		r1.A.Done = append(append([]string{}, base.Done...), "cde")
+		r1.A.Adv = []int{2}
+		r1.A.MaxSC = 5
+		r1.Depth = 3
+		add(r1)
+		r2 := poolCfg{Name: prop + " root=rr-bind-parked", Min: 2, Max: 2, WM: 100, RR: true, A: base,
+			Setup: append(readyPool(2), "state(1,IDLE)", "pick(bind,,O,g,c)", "pick(bind,,O,g,c)")}
+		r2.A.MaxOpen = 4
+		r2.Depth = 3
+		add(r2)
 		// saturated pool with fallback and a bound key
 		cs := poolCfg{Name: prop + " saturated-fallback", Min: 2, Max: 2, WM: 1, Fallback: true, A: base,
 			Setup: append(readyPool(2), "pick(bind,,L,g)", "done(0,ok:k1)")}
@@ -284,6 +298,16 @@ func poolConfigs(prop string, thorough bool) (cfgs []poolCfg, depth int) {
 				Done: []string{"ok", "cde"}, Adv: []int{2, 100}, MaxOpen: 3, MaxSC: int(n) + 1}
 			add(c)
 		}
+		// non-initial root: a BIND parked on a channel that is not READY and whose
+		// connection is being refreshed (the waiter must follow the swap)
+		for _, n := range []uint32{1, 2} {
+			r := poolCfg{Name: fmt.Sprintf("C09 pool=%d root=bind-parked+refreshing", n), Min: n, Max: n, WM: 100, RR: true, RefCalls: 1, RefMs: 1}
+			r.Setup = append(readyPool(int(n)), "pick(plain,,L,g,d1)", "state(0,IDLE)", "pick(bind,,O,g,c)", "adv(2)", "done(0,cde)", fmt.Sprintf("state(%d,CONNECTING)", n))
+			r.A = alphabet{States: "basic", Cmds: []string{"bind", "plain"}, Gens: []string{"L", "O"}, Ctx: []string{"g", "g,c"},
+				Done: []string{"ok", "cde"}, Adv: []int{2, 100}, MaxOpen: 3, MaxSC: int(n) + 2}
+			r.Depth = 4
+			add(r)
+		}
 		g := poolCfg{Name: "C09 growth min=2 max=3 wm=1", Min: 2, Max: 3, WM: 1, RR: true, Setup: readyPool(2)}
 		g.A = alphabet{States: "basic", Cmds: []string{"bind", "plain"}, Gens: []string{"L"}, Ctx: []string{"g"}, Done: []string{"ok"}, MaxOpen: 3, MaxSC: 3}
 		add(g)
@@ -349,7 +373,14 @@ func checkPool(c *vsched.RunCtx, prop string) {
 	idx, sub, nsub := c.Split(len(cfgs))
 	for _, i := range idx {
 		cfg := cfgs[i]
-		res := vsched.BFS(vsched.BFSOpts{Name: "pool", Config: cfg.Name, Depth: depth, DevPerOp: 1, Deadline: c.Deadline, Shard: sub, NShards: nsub},
+		d := depth
+		if cfg.Depth > 0 {
+			d = cfg.Depth
+			if c.Thorough() {
+				d += 2
+			}
+		}
+		res := vsched.BFS(vsched.BFSOpts{Name: "pool", Config: cfg.Name, Depth: d, DevPerOp: 1, Deadline: c.Deadline, Shard: sub, NShards: nsub},
 			func(s *vsched.Sched) vsched.World { return newPoolWorld(s, cfg) })
 		c.Add(res)
 	}
